@@ -716,11 +716,11 @@ fn parse_json_filter(input: &[u8], output: &mut [u8]) -> Result<(usize, usize), 
     let mut start_ids: Option<usize> = None;
     let mut start_authors: Option<usize> = None;
     let mut start_kinds: Option<usize> = None;
-    // Allowing up to 32 tag filter fields (plenty!)
+    // Allowing one tag filter field per letter (duplicates are refused below)
     // (we are not differentiating letters yet, just collecting offsets)
     // (we make the array to avoid allocation)
     let mut num_tag_fields = 0;
-    let mut start_tags: [usize; 32] = [usize::MAX; 32];
+    let mut start_tags: [usize; 52] = [usize::MAX; 52];
 
     eat_whitespace(input, &mut inpos);
     verify_char(input, b'{', &mut inpos)?;
@@ -842,20 +842,24 @@ fn parse_json_filter(input: &[u8], output: &mut [u8]) -> Result<(usize, usize), 
         {
             inpos += 1; // pass the hash
 
-            // Mark this position (on the letter itself)
-            start_tags[num_tag_fields] = inpos;
-            num_tag_fields += 1;
+            // Remember this position (on the letter itself)
+            let letter_pos = inpos;
 
             let letter = input[inpos];
             inpos += 2; // pass the letter and quote
 
             // Remember we found this tag in the `found_tags` bitfield
             if let Some(bit) = letter_to_tag_bit(letter) {
-                if found_tags & bit == bit {
+                let mask: u64 = 1 << bit;
+                if found_tags & mask == mask {
                     return Err(InnerError::JsonBadFilter("Duplicate tag", inpos).into());
                 }
-                found_tags |= bit;
+                found_tags |= mask;
             }
+
+            // Mark the position
+            start_tags[num_tag_fields] = letter_pos;
+            num_tag_fields += 1;
 
             // Burn the rest
             eat_colon_with_whitespace(input, &mut inpos)?;
